@@ -103,6 +103,13 @@ def run_start(sd, binds, path, busyfor):
         t0 = time.time()
         with open(os.path.join(d, "stderr.txt"), "w") as ferr:
             p = subprocess.Popen(cmd, cwd=rp.REPO, env=env, stdout=subprocess.DEVNULL, stderr=ferr, pass_fds=pass_fds)
+        exited = {}
+
+        def waiter():
+            p.wait()
+            exited["t"] = time.time()
+        import threading
+        threading.Thread(target=waiter, daemon=True).start()
         targets = {"tcp": (socket.AF_INET, ("127.0.0.1", port)), "unix": (socket.AF_UNIX, upath)}
         if fdsock is not None:
             targets["fd"] = (socket.AF_INET, fdsock.getsockname())
@@ -117,7 +124,8 @@ def run_start(sd, binds, path, busyfor):
                 released = True
             st = p.poll()
             if st is not None:
-                secs = int(round(time.time() - t0))
+                time.sleep(0.05)
+                secs = int(round(exited.get("t", time.time()) - t0))      # (when it exited, not when the loop noticed)
                 with open(os.path.join(d, "stderr.txt")) as f:
                     txt = f.read()
                 try:
